@@ -161,6 +161,26 @@ def worker(case):
                 flatten(n)
             if transform == "clone":
                 n = n.clone()
+            if transform == "front-insert":
+                # next to a sibling whose identifier differs from its name, a hand-built element *named* like that
+                # identifier is inserted in front (the writer has to find it another identifier)
+                sdn_ = core.sdn()
+                for l in n.libraries:
+                    for d in l.definitions:
+                        for x in list(d.children):
+                            i_ = x.get("EDIF.identifier")
+                            if i_ and i_ != x.name and not any(y.name == i_ for y in d.children):
+                                y = sdn_.Instance(name=i_)
+                                y.reference = x.reference
+                                d.add_child(y, position=0)
+                                break
+                        for c_ in list(d.cables):
+                            i_ = c_.get("EDIF.identifier")
+                            if i_ and i_ != c_.name and not any(y.name == i_ for y in d.cables):
+                                nc = sdn_.Cable(name=i_)
+                                d.add_cable(nc, position=0)
+                                nc.create_wire()
+                                break
             if transform == "clone-of-library-added":
                 lib2 = n.libraries[-1].clone()
                 lib2.name = "copy_of_" + n.libraries[-1].name
@@ -291,7 +311,7 @@ def cases(tier):
         for opts in fdesigns.edif_option_product(tier):
             if opts["design_case"] == "decl":
                 out.append(("reparsed", base, opts, "asc"))
-        for transform in ("uniquify", "uniquify-twice", "flatten", "clone", "clone-of-library-added"):
+        for transform in ("uniquify", "uniquify-twice", "flatten", "clone", "clone-of-library-added", "front-insert"):
             for order in core.ORDER_VARIANTS:
                 out.append(("pipeline", base, transform, order))
     return out
